@@ -62,9 +62,17 @@ def run(facts, res):
                       mentions_param(du.operand_term(t.args[0], 12), ma, 2)]
         # the position searches: discriminant switches on the result of Iterator::position
         searches = {}
+        search_terms = {}
         for e, l in all_edge_lits(ma, facts):
             pt_ = peel(l.term)
+            hops_ = 0
+            while pt_[0] == "call" and callee_name(pt_) in ("map", "or", "inspect") and pt_[2] and hops_ < 4 and \
+                    "option::Option" in ((pt_[4].self_ty or "") + (pt_[4].full or "") if pt_[4] is not None else ""):
+                pt_ = peel(pt_[2][0])     # `position(..).map(|p| p + offset)`: still the search's found / not-found outcome
+                hops_ += 1
             is_search = pt_[0] == "call" and callee_name(pt_) == "position"
+            if is_search:
+                search_terms[l.edge[0]] = pt_
             if not is_search and pt_[0] == "call" and pt_[4] is not None:
                 # a private helper wrapping the search (`fn position_of(a, t) -> Option<usize> { a.iter().position(|e| e == t) }`)
                 hb_ = facts.body(pt_[1])
@@ -107,6 +115,19 @@ def run(facts, res):
                     v = du.operand_term(t.args[-1], 16)
                     if not (contains_call(v, "clone") and contains_call(v, "next")):
                         elem_ok = False
+            # (e) the search looks at the whole destination: an element found anywhere in it is not inserted again
+            whole_ok = True
+            st_ = search_terms.get(sb)
+            if st_ is not None and st_[2]:
+                nm_ = {callee_name(x) for x in walk(st_[2][0], False) if x[0] == "call"}
+                part = nm_ & {"index", "index_mut", "get", "get_mut", "skip", "take", "split_at", "split_at_mut", "skip_while", "take_while", "step_by",
+                              "first", "last", "chunks", "windows", "filter", "split_first", "split_last", "get_unchecked"}
+                whole_ok = not part and mentions_param(st_[2][0], ma, 2)
+                res.instance("M2", "merge loop: the search runs over the whole destination (%s)" % whole_ok, ma.loc(ma.blocks[sb].term.line))
+                if not whole_ok:
+                    res.violation("M2", "merge_arrays|search-not-over-whole-destination",
+                                  "merge_arrays looks the current element up in a part of the destination only (%s): an element that is present outside "
+                                  "that part is inserted a second time" % sorted(part), ma.loc(ma.blocks[sb].term.line))
             res.instance("M2", "merge loop: not-found arm always inserts (%s), exactly once (%s), found arm never inserts (%s), inserted value = current element (%s)" % (
                 a_ok, b_ok, c_ok, elem_ok), ma.loc(ma.blocks[sb].term.line))
             ins_blocks = all_ins
@@ -172,6 +193,29 @@ def run(facts, res):
                 res.violation("M3", "%s|fold-incomplete" % b.path, "%s does not fold every leaf's order into the returned base (per leaf: %s, whole set: %s, returned: %s, early exits: %d)" % (
                     b.path, per_leaf, whole, returned, len(early)), b.loc(t.line))
     res.floor("M3", "merge fold sites", n3, 1)
+    # M3b: a view of an array built from a stored revision always goes through the fold: the order handed to the descriptor a
+    # reader returns never comes straight from the single-revision reconstruction (which knows nothing of the other leaves)
+    n3b = 0
+    folders = {b.path for b in facts.repo_bodies() for _, t in b.calls() if t.callee is not None and t.callee.target() == "utils::merge_arrays"}
+    for b in facts.repo_bodies():
+        if b.path in folders:
+            continue
+        for bi, t in b.calls():
+            if t.callee is None or t.callee.name != "new_from_order" or not t.args:
+                continue
+            ot = du_of(b).operand_term(t.args[0], 24)
+            via_fold = any(x[0] == "call" and x[4] is not None and x[4].target() in folders for x in walk(ot))
+            direct = contains_call(ot, R.name("rebuilder"))
+            if not via_fold and not direct:
+                continue
+            n3b += 1
+            res.instance("M3", "%s: the order of the array view comes from the fold over all leaves (%s), never straight from the single-revision "
+                         "reconstruction (%s)" % (b.path, via_fold, not direct), b.loc(t.line))
+            if direct:
+                res.violation("M3", "%s|view-order-not-merged" % b.path,
+                              "%s can build the array it returns from the reconstruction of one revision alone, without folding the other leaves in: "
+                              "elements inserted concurrently on another branch disappear from that view" % b.path, b.loc(t.line))
+    res.floor("M3", "array views built from the fold", n3b, 1)
 
     # ------------------------------------------------------------------ M4
     rd = facts.body("melda::Melda::read")
